@@ -12,6 +12,9 @@ set global configuration, render, new HCommand, help).  impl_run
   3. resets the global state again and renders every (object, configuration content in force) of the
      history on fresh objects / fresh configurations: the reference the oracle compares with.
 The Coq model gets the chunk programs and the identities as oracle values and must predict every text.
+References of histories marked "fp" (every second one, all environment histories) come from fresh PROCESSES instead
+(_FreshServer: a process started under the environment in force, forked per reference); ["env", {...}] operations change the
+process environment (TZ, NO_COLOR, TERM, COLUMNS, locale ...) between renderings.
 Structural operations (build a late table from another table's .fmt, set_fmt, remove_columns) render nothing: probe and
 reference are taken on a world that replays only the structural operations before the rendering (epochs).  The title
 block of a table is computed by the model (Titles.v).  Every argument object handed to the library is pictured before
@@ -30,7 +33,7 @@ MODEL_TARGETS = ["C10/Titles.vo", "C10/Run.vo"]
 PROOF_TARGETS = ["C10/SgrLemmas.vo", "C10/Lemmas.vo", "C10/LemmasInv.vo", "C10/LemmasRun.vo", "C10/LemmasPure.vo", "C10/LemmasTop.vo", "C10/LemmasSub.vo", "C10/LemmasWit.vo", "C10/LemmasLayout.vo", "C10/LemmasHandle.vo", "C10/LemmasTitles.vo"]
 PROPS = ["C10/Props.v"]
 ALLOWED_AXIOMS = []
-IMPL_TIMEOUT = 60.0
+IMPL_TIMEOUT = 180.0    # per history; an environment history starts 3-6 python processes (about 1 s on an idle machine, but 60 s were exceeded twice with seven checks running at once at load 130)
 COQ_SHARD = 16      # cases per coqc file: the printed result of a file (one line per case, (length, hash) of every text) must stay below ~30 000 characters -- at 40 cases the lazy-result histories (up to 3 000 characters each) made coqc end in "Stack overflow" in the thorough tier
 
 ESC = "\x1b"
@@ -575,7 +578,16 @@ RULE = ("random histories of 4-14 operations over 1-3 objects (json values, tabl
         "PPTableFormat objects, enum dicts and field types, printed values, report data, notes objects, _HDOC_ATTRS, the dicts given to "
         "ColorsConfig / add_new_items / remove_columns, the SYNTAX_DEFAULTS of the palette classes, every table's str(fmt)) is pictured before "
         "and after each operation; one render mode in six USES the result as a text first (get_ch_text / + / += / fixed_len / slices and "
-        "writing to what they return).")
+        "writing to what they return).  "
+        "Plus 24 (thorough 240) environment histories: 2-3 git history reports whose build / commit times lie on both sides of a daylight-saving "
+        "switch (a January report, a July report, one whose times are seconds / hours around the switch of the zone in force), sometimes with a "
+        "table / json value at the layout thresholds, rendered in 2-3 rounds in different orders in ONE process while the process environment "
+        "changes between the rounds (operation env: os.environ + time.tzset() + locale.setlocale): POSIX TZ strings with daylight saving time "
+        "(central Europe, US east, Sydney, Lord Howe +30 min), fixed odd offsets, NO_COLOR / FORCE_COLOR / CLICOLOR(_FORCE) / TERM / COLORTERM / "
+        "COLUMNS / LINES / LC_ALL / LANG.  Their reference -- and that of every second history of all the other kinds -- is rendered by a FRESH "
+        "PROCESS started under the environment in force at the operation (forked from a python process that has imported the package and rendered "
+        "nothing), not in the worker process after a reset of the known globals; that reference must also stay the same when every variable "
+        "except TZ is taken away (environment-dependent).")
 TRUSTED_BASE = [
     "the chunk program of tables, record formatters, git history reports and console help (which palette accessor colours which text) is taken from the implementation by a probe rendering with an instrumented palette on a fresh copy of the object; their layout code is NOT modelled in Coq (tested: strip(coloured) = no_color on the implementation for objects at the layout thresholds, and the model, fed with the probe's layout, must reproduce the coloured text)",
     "lazy results: which line a generator step yields and which sub-palettes it requests first (the probe records, per line, how many sub-palettes had been requested when the line was yielded) are taken from the probe; the model has no state of its own for the object (format objects, records, service lines): that sibling objects and concurrent generators share nothing is exactly what the comparison with the model (programs of fresh copies) and the fresh-state oracle test",
@@ -583,6 +595,7 @@ TRUSTED_BASE = [
     "table title blocks: the rows ARE modelled (coq/C10/Titles.v, title_lines: as many rows as the tallest title among the visible columns, '' below a shorter one; cells padded to the column); the title_lines of the fields and the visible columns are read from a FRESH table before anything is rendered (public attributes table.fmt.repr_structure.columns[i].name / .field.title_lines), the widths from the border line of the probe's program; titles that do not fit their column (truncation) fall back to the probe's rows",
     "structural operations (late construction from another table's .fmt, set_fmt, remove_columns) have no model operation: they select WHICH program a fresh process prints (programs are probed per epoch on a world that replays the structural operations only)",
     "CPython: id() of a live object is never handed to a new object; an object referenced from a dict key stays alive",
+    "fresh-process references: a child forked from a python process that was STARTED under the environment in force (TZ, NO_COLOR, TERM, COLUMNS, locale variables ...), has imported ak.color / ppobj / hdoc / ghist and has rendered nothing stands for 'a fresh process'; the process environment has no model operation (the model's texts do not depend on it: the local times a git history report prints enter through the probe's program of the epoch, the pretty-printer layout model has no environment argument); POSIX TZ strings with rules are interpreted by the C library (glibc) identically in the worker and in the reference process",
     "the colour description language is modelled for named foreground colours and bold only; add_new_items' eager resolution loop is modelled as following the parent chain in the current map; the re-entrant set_global_colors_config calls are flattened (harness/props/c10.notes.md)",
     "gen/C10_Consts.v: palette class table (SYNTAX_DEFAULTS, PARENT_PALETTES, ConfColor fields through the mro), BUILT_IN_CONFIG, the enum cache key expressions (cache_key = field_palette; val_key = _val_cache_key(value) = (type(value), str(value), value) at all 16 accesses to the by-value dicts), the cache-reset clause of add_new_items and the way HCommand / LLImpl obtain their palette (read-only property _c = self._mk_palette(None, None, None), nothing bound in __init__) are read from the source by harness/props/c10.py:extract (ast, fail-closed) and cross-checked against the imported classes in every implementation run",
 ]
@@ -1593,6 +1606,109 @@ def _notes_case(rng):
     return {"fts": [], "objs": objs, "ops": ops, "nts": 1}
 
 
+# ---------------------------------------------------------------------- the process environment between renderings
+# POSIX TZ strings (no tz database needed) and the instants of their two switches in 2023
+TZ_DST = {"CET-1CEST,M3.5.0,M10.5.0/3": [1679792400, 1698541200], "EST5EDT,M3.2.0,M11.1.0": [1678604400, 1699164000],
+          "AEST-10AEDT,M10.1.0,M4.1.0/3": [1680364800, 1696089600], "LHST-10:30LHDT-11,M10.1.0,M4.1.0": [1680361200, 1696087800]}
+TZ_FIXED = ["UTC0", "IST-5:30", "XXX+9:45"]
+MIDWINTER = [1610712000, 1642248000, 1673784000, 1705320000]       # 15 January 12:00 UTC 2021-2024
+MIDSUMMER = [1626350400, 1657886400, 1689422400, 1721044800]       # 15 July
+ENV_EXTRAS = [{"NO_COLOR": "1"}, {"NO_COLOR": "1"}, {"NO_COLOR": ""}, {"TERM": "dumb"}, {"TERM": "xterm-256color", "COLORTERM": "truecolor"}, {"COLUMNS": "40", "LINES": "10"},
+              {"COLUMNS": "80"}, {"COLUMNS": "100", "LINES": "24"}, {"COLUMNS": "132"}, {"COLUMNS": "0"}, {"COLUMNS": "wide"}, {"FORCE_COLOR": "1"}, {"CLICOLOR": "0"},
+              {"CLICOLOR_FORCE": "1", "NO_COLOR": "1"}, {"LC_ALL": "C", "_setlocale": 1}, {"LC_ALL": "C.UTF-8", "_setlocale": 1}, {"LANG": "POSIX", "LC_ALL": "POSIX"},
+              {"LANG": "de_DE.UTF-8", "_setlocale": 1}, {"NO_COLOR": "1", "TERM": "dumb", "COLUMNS": "20"}]
+
+
+def _env_ghist(rng, date, rid):
+    """a report whose build and commit times come from `date()`"""
+    def bn():
+        return rng.choice([[1, 2, rng.randrange(50)], [10, 20, 30, 31], "nb", "nm"])
+    branches = []
+    for bi in range(rng.randrange(1, 3)):
+        builds = []
+        for _ in range(rng.randrange(1, 3)):
+            builds.append({"bn": bn(), "date": rng.choice([None, date(), date()]),
+                           "incl": [["par", "release/1", bn()] for _ in range(rng.randrange(0, 2))],
+                           "bumps": [["lib" + str(i), bn(), [bn() for _ in range(rng.randrange(0, 2))]] for i in range(rng.randrange(0, 2))],
+                           "commits": [{"sha": "%040x" % rng.getrandbits(160), "date": date(), "author": rng.choice(["Ann", "Bob Builder The Very Long Name"]),
+                                        "msg": rng.choice(["fix BUG-1\nbody", "BUG-1 more"])} for _ in range(rng.randrange(1, 4))]})
+        branches.append({"name": "release/%d" % bi, "builds": builds})
+    return {"k": "ghist", "repos": [{"id": rid, "branches": branches}]}
+
+
+def _env_case(rng):
+    """Git history reports with times on both sides of a daylight-saving switch (a 'winter' report, a 'summer' report, one whose commits
+    straddle a switch by seconds / hours) and, sometimes, a table / json value, rendered in several rounds in different orders inside one process
+    while the process environment changes between the rounds: a time zone with daylight saving time, another zone, NO_COLOR / TERM / COLUMNS /
+    locale variables.  Every text must be what a fresh process started under the environment in force prints for the object alone ("fp")."""
+    tz1 = rng.choice(sorted(TZ_DST))
+    tz2 = rng.choice([z for z in sorted(TZ_DST) if z != tz1] + TZ_FIXED)
+    sw = TZ_DST[tz1]
+    near = [-86400 * 3, -86400, -7200, -3601, -3600, -1801, -1, 0, 1, 1799, 1800, 3599, 3600, 7200, 86400, 86400 * 3]
+    kinds = {"winter": lambda: rng.choice(MIDWINTER) + rng.randrange(-3 * 86400, 3 * 86400),
+             "summer": lambda: rng.choice(MIDSUMMER) + rng.randrange(-3 * 86400, 3 * 86400),
+             "switch": lambda: rng.choice(sw) + rng.choice(near)}
+    names = ["winter", "summer"] + (["switch"] if rng.random() < 0.6 else [])
+    rng.shuffle(names)
+    objs = [_env_ghist(rng, kinds[n], "repo_" + n) for n in names]
+    fts = []
+    r = rng.random()
+    if r < 0.25:
+        fts = [_rand_ft(rng)]
+        objs.append(_rand_table(rng, 1, "table"))
+    elif r < 0.40:
+        fts, spec = _threshold_table(rng, "table")
+        objs.append(spec)
+    elif r < 0.75:
+        # (long wrapped lists / values at the one-line threshold: where a terminal width would show)
+        objs.append(rng.choice([_threshold_json(rng), _threshold_json(rng), {"k": "json", "v": _fix_keys(_rand_json(rng)), "fj": rng.random() < 0.3}]))
+    if len(objs) > 3 and rng.random() < 0.5:
+        del objs[rng.randrange(3)]          # (one report less)
+    ops = [["newconf", 0, False, _all_colours(rng)], ["newconf", 1, False, rng.choice([{}, _rand_conf_items(rng, 4)])]]
+    nh = 0
+    tz = None
+    for rnd in range(rng.randrange(2, 4)):
+        # the environment of the round: mostly the zone with daylight saving time stays (the reports of both seasons are rendered under ONE zone),
+        # sometimes another zone or the worker's own environment; the other variables come and go
+        env = {}
+        if rnd == 0:
+            tz = tz1 if rng.random() < 0.85 else None
+        elif rng.random() < 0.35:
+            tz = rng.choice([tz2, tz2, tz1, None])
+        if tz is not None:
+            env["TZ"] = tz
+        if rng.random() < 0.6:
+            env.update(rng.choice(ENV_EXTRAS))
+            if rng.random() < 0.3:
+                env.update(rng.choice(ENV_EXTRAS))
+        if rnd > 0 or env:
+            ops.append(["env", env])
+        order = list(range(len(objs)))
+        rng.shuffle(order)
+        if rng.random() < 0.5:
+            order.append(rng.choice(order))
+        lazy = None
+        if rng.random() < 0.3:
+            lazy = [nh, rng.choice(order)]
+            nh += 1
+            ops.append(["make", lazy[0], lazy[1], rng.choice([0, 1]), rng.random() < 0.25, "none"])
+        for o in order:
+            ops.append(["render", o, rng.choice([0, 0, 1]), rng.random() < 0.25, "none", rng.choice([0, 0, 1, 2, 3])])
+        if lazy:
+            ops.append(["whole", lazy[0], rng.choice([0, 1, 2, 3])])
+    return {"fts": fts, "objs": objs, "ops": ops, "fp": 1, "envc": 1}
+
+
+def _spread(cases, extra):
+    """`extra` inserted at evenly spaced positions (consecutive cases run in one worker process: the cases that start reference
+    processes of their own are not left to one worker)"""
+    out = list(cases)
+    step = max(1, len(out) // (len(extra) + 1))
+    for k, c in enumerate(extra):
+        out.insert(min(len(out), (k + 1) * step + k), c)
+    return out
+
+
 def gen_cases(rng, tier):
     big = tier == "thorough"
     cases = [_rand_history(rng, big) for _ in range(4000 if big else 420)]
@@ -1609,17 +1725,26 @@ def gen_cases(rng, tier):
     cases += [_notes_case(rng) for _ in range(200 if big else 24)]
     cases += [_enumwidth_case(rng) for _ in range(160 if big else 16)]
     cases += [_hunt_case(rng) for _ in range(12 if big else 3)]
-    return cases
+    # a share of all these histories is compared with renderings of fresh PROCESSES (forked from a process that has imported the package
+    # and rendered nothing) instead of in-process renderings after _reset_globals(): state the harness does not know how to reset
+    # (a class attribute, a module-level memo) would otherwise be in the reference too
+    for k, c in enumerate(cases):
+        if k % FP_SHARE == 0 and not c.get("hunt"):
+            c["fp"] = 1
+    return _spread(cases, [_env_case(rng) for _ in range(240 if big else 24)])
+
+
+FP_SHARE = 2        # every second history gets fresh-process references (all environment histories do)
 
 
 def search_cases(rng, tier):
-    return [_titles_case(rng) for _ in range(100)] + [_notes_case(rng) for _ in range(60)] + [_enumwidth_case(rng) for _ in range(60)] + [_sibling_case(rng) for _ in range(80)] + [_interleave_case(rng) for _ in range(120)] + [_threshold_case(rng) for _ in range(240)] + [_hunt_case(rng) for _ in range(30)] + [_reg_case(rng) for _ in range(60)] + [_synced_case(rng) for _ in range(60)] + [_alias_case(rng) for _ in range(120)] + [_help_case(rng) for _ in range(60)] + [_rand_history(rng, True) for _ in range(600)]
+    return [_env_case(rng) for _ in range(60)] + [_titles_case(rng) for _ in range(100)] + [_notes_case(rng) for _ in range(60)] + [_enumwidth_case(rng) for _ in range(60)] + [_sibling_case(rng) for _ in range(80)] + [_interleave_case(rng) for _ in range(120)] + [_threshold_case(rng) for _ in range(240)] + [_hunt_case(rng) for _ in range(30)] + [_reg_case(rng) for _ in range(60)] + [_synced_case(rng) for _ in range(60)] + [_alias_case(rng) for _ in range(120)] + [_help_case(rng) for _ in range(60)] + [_rand_history(rng, True) for _ in range(600)]
 
 
 def kind(case):
     if case.get("hunt"):
         return "hunt"
-    return ("threshold:" if case.get("thr") else "") + ("shared/lazy:" if case.get("shr") else "") + ("equal-values:" if case.get("alias") else "") + ("outliving-help:" if case.get("hlp") else "") + ("titles/re-format:" if case.get("ttl") else "") + ("shared-notes:" if case.get("nts") else "") + ("enum-widths:" if case.get("ew") else "") + "+".join(sorted({o["k"] for o in case["objs"]}))
+    return ("environment:" if case.get("envc") else "") + ("threshold:" if case.get("thr") else "") + ("shared/lazy:" if case.get("shr") else "") + ("equal-values:" if case.get("alias") else "") + ("outliving-help:" if case.get("hlp") else "") + ("titles/re-format:" if case.get("ttl") else "") + ("shared-notes:" if case.get("nts") else "") + ("enum-widths:" if case.get("ew") else "") + "+".join(sorted({o["k"] for o in case["objs"]}))
 
 
 # ====================================================================== implementation side
@@ -1775,7 +1900,161 @@ def _mk_enum(ftspec, with_dict=False):
     return (ft, d) if with_dict else ft
 
 
-STRUCT_OPS = ("build", "tset", "trm")      # operations that build / re-format an object without rendering anything
+STRUCT_OPS = ("build", "tset", "trm", "env")      # operations that build / re-format an object -- or change the process environment -- without rendering anything
+
+
+# ---------------------------------------------------------------------- the process environment
+# What a rendering prints may depend on the object, the format and the colours configuration -- and on nothing the process
+# remembers.  The environment variables a console program commonly consults are varied BETWEEN the renderings of a history
+# (["env", {...}] operations: os.environ + time.tzset() + locale.setlocale); the one dependency the code has (the git history
+# report prints commit times in local time, so TZ) is part of "the object as rendered in this environment": every text is
+# compared with the rendering of a FRESH PROCESS started under the environment in force (`_FreshServer`), and that reference
+# must not change when every variable except TZ is taken away (oracle clause environment-dependent).
+ENV_VARS = ("TZ", "NO_COLOR", "FORCE_COLOR", "CLICOLOR", "CLICOLOR_FORCE", "TERM", "COLORTERM", "COLUMNS", "LINES", "LC_ALL", "LANG")
+_BASE_ENV = {k: os.environ.get(k) for k in ENV_VARS}
+_ENV_FROZEN = False         # True in a fresh reference process: it was STARTED under its environment, env operations are not replayed
+
+
+def _set_env(over=None):
+    """the controlled variables: `over` on top of the values the worker process was started with"""
+    import time
+    import locale
+    if _ENV_FROZEN:
+        return
+    for k in ENV_VARS:
+        v = (over or {}).get(k, _BASE_ENV[k])
+        if v is None:
+            os.environ.pop(k, None)
+        else:
+            os.environ[k] = v
+    time.tzset()
+    try:
+        # a process started under this environment has LC_CTYPE from it and "C" elsewhere; with "_setlocale" the program has
+        # adopted the user's locale for every category
+        locale.setlocale(locale.LC_ALL, "C")
+        locale.setlocale(locale.LC_ALL if (over or {}).get("_setlocale") else locale.LC_CTYPE, "")
+    except locale.Error:
+        pass
+
+
+def _env_at(case, i):
+    """the environment operation in force at operation i (None: the environment the worker was started with)"""
+    env = None
+    for op in case["ops"][:i]:
+        if op[0] == "env":
+            env = op[1]
+    return env or None
+
+
+def _has_env(case):
+    return any(op[0] == "env" for op in case["ops"])
+
+
+class _FreshServer:
+    """a python process STARTED under a given environment that has imported the package and rendered nothing; every request
+    is answered by a forked child (= a process in the state right after import), which renders the reference and exits"""
+    def __init__(self, env):
+        import subprocess
+        import sys
+        e = dict(os.environ)
+        for k in ENV_VARS:
+            v = (env or {}).get(k, _BASE_ENV[k])
+            if v is None:
+                e.pop(k, None)
+            else:
+                e[k] = v
+        e["VERIF_C10_SETLOCALE"] = "1" if (env or {}).get("_setlocale") else ""
+        self.p = subprocess.Popen([sys.executable, "-c", "from harness.props import c10; c10._fresh_server()"], env=e,
+                                  stdin=subprocess.PIPE, stdout=subprocess.PIPE, stderr=subprocess.DEVNULL, text=True)
+        self.case_id = None
+
+    def ask(self, case, msg):
+        import json
+        if self.case_id != _CASE_SERIAL[0]:
+            self.p.stdin.write(json.dumps({"case": case}) + "\n")
+            self.case_id = _CASE_SERIAL[0]
+        self.p.stdin.write(json.dumps(msg) + "\n")
+        self.p.stdin.flush()
+        line = self.p.stdout.readline()
+        if not line:
+            raise RuntimeError("the fresh reference process ended (rc %r)" % self.p.poll())
+        return json.loads(line)
+
+    def close(self):
+        try:
+            self.p.kill()
+            self.p.stdin.close()
+            self.p.stdout.close()
+            self.p.wait()
+        except Exception:  # noqa
+            pass
+
+
+_CASE_SERIAL = [0]  # number of the impl_run call (a server is told the case once)
+_FRESH = {}        # environment key -> _FreshServer; the one of the worker's own environment lives as long as the worker
+
+
+FRESH_KEEP = 4      # reference processes kept between histories besides the one of the worker's own environment (most recently used first out last)
+
+
+def _fresh_close(everything=False):
+    keep = [] if everything else ["null"] + [k for k in _FRESH if k != "null"][-FRESH_KEEP:]
+    for k in list(_FRESH):
+        if k not in keep:
+            _FRESH.pop(k).close()
+
+
+def _fresh_reference(case, i, op, snap, env):
+    import json
+    key = json.dumps(env, sort_keys=True)
+    if key not in _FRESH:
+        _FRESH[key] = _FreshServer(env)
+    else:
+        _FRESH[key] = _FRESH.pop(key)       # (dicts keep insertion order: most recently used last)
+    return _FRESH[key].ask(case, {"i": i, "op": op, "snap": snap})
+
+
+def _fresh_server():
+    """main loop of a fresh reference process (see _FreshServer)"""
+    global _ENV_FROZEN
+    import sys
+    import json
+    import signal
+    import locale
+    import importlib
+    _ENV_FROZEN = True
+    if os.environ.get("VERIF_C10_SETLOCALE"):
+        try:
+            locale.setlocale(locale.LC_ALL, "")
+        except locale.Error:
+            pass
+    import ak
+    repo = os.environ.get("VERIF_REPO", "/repo")
+    if not os.path.abspath(ak.__file__).startswith(os.path.abspath(repo) + os.sep):
+        sys.exit(3)
+    for m in MODULES:
+        importlib.import_module("ak." + m)
+    sys.setrecursionlimit(10000)
+    case = None
+    for line in sys.stdin:
+        msg = json.loads(line)
+        if "case" in msg:
+            case = msg["case"]
+            continue
+        sys.stdout.flush()
+        pid = os.fork()
+        if pid == 0:
+            rc = 1
+            try:
+                signal.alarm(int(IMPL_TIMEOUT))
+                res = _safe_reference(case, msg["i"], msg["op"], msg["snap"], None, None)
+                os.write(1, (json.dumps(res) + "\n").encode())
+                rc = 0
+            finally:
+                os._exit(rc)
+        _, st = os.waitpid(pid, 0)
+        if st != 0:
+            os.write(1, (json.dumps({"ref_err": "the fresh reference process died (status %d)" % st}) + "\n").encode())
 
 
 def _epochs(case):
@@ -1853,6 +2132,8 @@ class _World:
     when it renders at operation i.  track: keep every argument object handed to the library (for the clause
     'the caller's objects are never modified')."""
     def __init__(self, case, probe=None, upto=0, track=False):
+        if _has_env(case):
+            _set_env(None)              # a world starts in the environment the process was started with
         self.case = case
         self.probe = probe          # _Probe or None
         self.tracked = [] if track else None        # [(name, owner object index or None, object, view function or None)]
@@ -1904,7 +2185,9 @@ class _World:
     def apply(self, op):
         """structural operations"""
         k = op[0]
-        if k == "build":
+        if k == "env":
+            _set_env(op[1])
+        elif k == "build":
             self.objs[op[1]] = self._obj(self.case["objs"][op[1]], op[1])
         elif k == "tset":
             t = self.tables[op[1]]
@@ -2720,6 +3003,21 @@ def impl_run(case):
         log.append(id(self))
     snaps = _content_tracker(case)
     attempts = 0
+    _CASE_SERIAL[0] += 1
+    fresh = bool(case.get("fp")) and not case.get("hunt")
+
+    def reference(i, op):
+        if not fresh:
+            return _safe_reference(case, i, op, snaps[i], ex, klasses)
+        # the rendering of a FRESH PROCESS started under the environment in force at operation i ...
+        env = _env_at(case, i)
+        r = _fresh_reference(case, i, op, snaps[i], env)
+        tz_only = ({"TZ": env["TZ"]} if "TZ" in env else None) if env else None
+        if env != tz_only and "ref" in r:
+            # ... which no variable except TZ (local time in the git history report) may influence
+            r2 = _fresh_reference(case, i, op, snaps[i], tz_only)
+            r["ref_envfree"] = r2.get("ref", "raises " + str(r2.get("ref_err")))
+        return r
     try:
         type.__setattr__(color.Palette, "__init__", init)
         if case.get("hunt"):
@@ -2739,15 +3037,25 @@ def impl_run(case):
             refs = None
     finally:
         type.__setattr__(color.Palette, "__init__", orig_init)
+        if _has_env(case):
+            _set_env(None)
     del w
     gc.collect()
     # 3. references in pristine state
     if refs is None:
-        refs = [(_safe_reference(case, i, op, snaps[i], ex, klasses) if op[0] in ("render", "help") and "out" in recs[i] else None) for i, op in enumerate(case["ops"])]
-        for i, op in enumerate(case["ops"]):
-            if op[0] == "make" and "err" not in recs[i]:
-                # what the result must print, whenever and however it is consumed
-                refs[i] = _safe_reference(case, i, ["render", op[2], op[3], op[4], op[5], 0], snaps[i], ex, klasses)
+        try:
+            refs = [(reference(i, op) if op[0] in ("render", "help") and "out" in recs[i] else None) for i, op in enumerate(case["ops"])]
+            for i, op in enumerate(case["ops"]):
+                if op[0] == "make" and "err" not in recs[i]:
+                    # what the result must print, whenever and however it is consumed
+                    refs[i] = reference(i, ["render", op[2], op[3], op[4], op[5], 0])
+        except BaseException:
+            _fresh_close(True)      # (a time-out while waiting for a reference process: never read its answer later)
+            raise
+        finally:
+            _fresh_close()
+            if _has_env(case):
+                _set_env(None)
     _reset_globals()
     for rec, r in zip(recs, refs):
         if r:
@@ -3041,6 +3349,9 @@ def oracle(case, obs):
         if "ref" not in rec:
             continue
         ref, ref_nc = rec["ref"], rec["ref_nc"]
+        if "ref_envfree" in rec and rec["ref_envfree"] != ref:
+            out.append(("environment-dependent", f"{where}: a fresh process started under the environment {_env_at(case, i)} prints {ref!r}; with every variable "
+                                                 f"except TZ taken away it prints {rec['ref_envfree']!r}"))
         nocolor = op[0] == "render" and op[3]
         texts = rec.get("out", [])
         if len(texts) == 2 and texts[0] != texts[1] and not (op[0] == "render" and op[5] == 4 and texts[0] == ref + "#" and texts[1] == ref):
@@ -3215,7 +3526,10 @@ LEVEL_TEXT = ("Model level, unbounded histories / objects / allocation oracles, 
               "AT the layout thresholds under configurations that colour every syntax id, TEXT included), len / fixed_len / format / slices of result "
               "objects and that what they return may be written to, 'the caller's objects are never modified' (pictures of every argument object before / after each "
               "operation: oracle clause caller-object-modified), re-formatting between renderings (set_fmt / remove_columns / late fmt_obj: compared with the model through "
-              "the per-epoch programs), synced palettes, equality with a FRESH configuration for coloured renderings; the pretty-printer layout model is tied to the "
+              "the per-epoch programs), synced palettes, equality with a FRESH configuration for coloured renderings, independence from the process (state outside the objects: "
+              "class attributes, module-level memos -- references rendered by fresh processes for every second history) and from the process environment (env operations "
+              "between renderings: time zones with daylight saving time and report times on both sides of a switch, NO_COLOR / TERM / COLUMNS / locale variables; only TZ may "
+              "show, and only as a fresh process under that TZ shows it: oracle clauses history-dependent / environment-dependent); the pretty-printer layout model is tied to the "
               "code by correspondence only (values at 200 +-3 and wrapped lists in every run).")
 LEVEL_NOTE = ("Trusted: Coq kernel + vm_compute; fidelity of the hand-written world model (checked by correspondence on whole histories, not "
               "proved); the chunk programs of the objects are taken from the implementation by a probe rendering; the ast extractor "
